@@ -169,14 +169,28 @@ func runC16(rc *RunCtx) {
 		}
 		return false
 	}
+	// a serial as clients spell it: as issued (lower case, colons), upper case,
+	// hyphens, or both
+	spell := func(serial string) string {
+		switch tp.Pick(4) {
+		case 1:
+			return strings.ToUpper(serial)
+		case 2:
+			return strings.ReplaceAll(serial, ":", "-")
+		case 3:
+			return strings.ToUpper(strings.ReplaceAll(serial, ":", "-"))
+		}
+		return serial
+	}
 	// the three places where a revocation must be visible
 	checkLeaf := func(hh *CoreH, l *pkiLeaf, phase string, crlMustList bool) bool {
 		if !l.revoked || !time.Now().Before(l.notAfter) {
 			return true
 		}
-		resp, err := hh.Do("status", Req{Op: logical.ReadOperation, Path: "pki/cert/" + l.serial, Token: hh.Root})
+		asked := spell(l.serial)
+		resp, err := hh.Do("status", Req{Op: logical.ReadOperation, Path: "pki/cert/" + asked, Token: hh.Root})
 		if err != nil || resp == nil || toInt64(resp.Data["revocation_time"]) == 0 {
-			viol("revoked-cert-status-not-revoked", map[string]any{"phase": phase}, "%s: cert/%s does not report a revocation time (%v, %v)", phase, l.serial, resp, err)
+			viol("revoked-cert-status-not-revoked", map[string]any{"phase": phase, "serial_spelled_as_issued": asked == l.serial}, "%s: cert/%s does not report a revocation time (%v, %v)", phase, asked, resp, err)
 			return false
 		}
 		if rt := toInt64(resp.Data["revocation_time"]); l.revTime != 0 && rt != l.revTime {
@@ -261,9 +275,14 @@ func runC16(rc *RunCtx) {
 			tag := fmt.Sprintf("rv%d", reqN)
 			var resp *logical.Response
 			var err error
+			// the certificate is named by its serial in one of its spellings, or handed in as PEM
+			rdata := map[string]any{"serial_number": spell(l.serial)}
+			if tp.Pick(4) == 0 {
+				rdata = map[string]any{"certificate": string(pem.EncodeToMemory(&pem.Block{Type: "CERTIFICATE", Bytes: l.cert.Raw}))}
+			}
 			s.SetControlled()
 			t := s.Go(tag, func() {
-				resp, err = h.Do(tag, Req{Op: logical.UpdateOperation, Path: "pki/revoke", Token: h.Root, Data: map[string]any{"serial_number": l.serial}})
+				resp, err = h.Do(tag, Req{Op: logical.UpdateOperation, Path: "pki/revoke", Token: h.Root, Data: rdata})
 			})
 			if try == 1 {
 				t.FailAt = failAt
